@@ -297,4 +297,23 @@ def r_enum(ctx):
     repo_idioms(ctx, "C04.R5", ('connection',))
 
 
-RULES = [("C04.R1", r1), ("C04.R2", r2), ("C04.R3", r3), ("C04.R4", r4), ("C04.R5", r_enum)]
+
+def r_shared_r6(ctx):
+    """datagram and message numbers reach the duplicate test as they were written: header and per-message framing agree between writer and reader (shared C09.R1, C09.R2)"""
+    from . import c09 as _m
+    from .c02 import _Sub
+    for _f in ['r1', 'r2']:
+        getattr(_m, _f)(_Sub(ctx, "C04.R6"))
+
+
+def r_shared_r7(ctx):
+    """BitField.insert partitions the output of SeqNum.diff: diff is antisymmetric on the ring with range [-T, T] and the comparisons are defined through it (shared C08.R2, C08.R3)"""
+    from . import c08 as _m
+    from .c02 import _Sub
+    for _f in ['r2', 'r3']:
+        getattr(_m, _f)(_Sub(ctx, "C04.R7"))
+
+
+EXPLANATION = EXPLANATION + ' (R6) datagram and message numbers reach the duplicate test as they were written: header and per-message framing agree between writer and reader (shared C09.R1, C09.R2). (R7) BitField.insert partitions the output of SeqNum.diff: diff is antisymmetric on the ring with range [-T, T] and the comparisons are defined through it (shared C08.R2, C08.R3).'
+
+RULES = [("C04.R1", r1), ("C04.R2", r2), ("C04.R3", r3), ("C04.R4", r4), ("C04.R5", r_enum), ("C04.R6", r_shared_r6), ("C04.R7", r_shared_r7)]
